@@ -1276,17 +1276,21 @@ def call(info, a, b):
     e.append(ExprAff(eip, b))
     return e
 
+def ret_release(a):
+    # the immediate of ret n / retf n as a 32-bit quantity (the stack pointer of a flat 32-bit stack is esp whatever the operand size)
+    if a.get_size() == 32:
+        return a
+    return ExprCompose([(a, 0, a.get_size()), (ExprInt(tab_uintsize[32 - a.get_size()](0)), a.get_size(), 32)])
+
 def ret(info, a = ExprInt32(0)):
     e = []
     opmode, admode = info.opmode, info.admode
     if opmode == x86_afs.u16:
         s = 16
-        myesp = esp[:16]
     else:
         s = 32
-        myesp = esp
-    int_cast = tab_uintsize[s]
-    e.append(ExprAff(myesp, ExprOp('+', myesp, ExprOp('+', ExprInt(int_cast(s/8)), a))))
+    myesp = esp
+    e.append(ExprAff(myesp, ExprOp('+', myesp, ExprOp('+', ExprInt32(s/8), ret_release(a)))))
     e.append(ExprAff(eip, ExprMem(myesp, size = s)))
     return e
 
@@ -1295,14 +1299,12 @@ def retf(info, a = ExprInt32(0)):
     opmode, admode = info.opmode, info.admode
     if opmode == x86_afs.u16:
         s = 16
-        myesp = esp[:16]
     else:
         s = 32
-        myesp = esp
-    int_cast = tab_uintsize[s]
-    e.append(ExprAff(myesp, ExprOp('+', myesp, ExprOp('+', ExprInt(int_cast(s/8 + 2)), a))))
+    myesp = esp
+    e.append(ExprAff(myesp, ExprOp('+', myesp, ExprOp("+", ExprInt32(2*s/8), ret_release(a)))))
     e.append(ExprAff(eip, ExprMem(myesp, size = s)))
-    e.append(ExprAff(cs, ExprMem(ExprOp('+', myesp, ExprInt(int_cast(s/8))),
+    e.append(ExprAff(cs, ExprMem(ExprOp('+', myesp, ExprInt32(s/8)),
                                  size=16)))
 
 
